@@ -156,19 +156,14 @@ def expInc (r : List Char) : Bool :=
     if c = 'e' ∨ c = 'E' then
       match r' with
       | [] => true
-      | s :: r'' =>
-        let r3 := if s = '+' ∨ s = '-' then r'' else s :: r''
-        match r3.takeWhile isDigit, r3.dropWhile isDigit with
-        | _, [] => true          -- no more input where `digit1` wants a (further) digit
-        | _, _ :: _ => false
+      | _ :: _ =>
+        match (stripPlusMinus r').2.dropWhile isDigit with
+        | [] => true          -- no more input where `digit1` wants a (further) digit
+        | _ :: _ => false
     else false
 
-/-- Does the streaming `recognize_float` return `Incomplete` on this input? -/
-def fltInc (inp : List Char) : Bool :=
-  let r := match inp with
-    | '+' :: r => r
-    | '-' :: r => r
-    | _ => inp
+/-- The part of the streaming `recognize_float` after the optional sign. -/
+def fltIncBody (r : List Char) : Bool :=
   match r with
   | [] => true
   | _ :: _ =>
@@ -184,6 +179,9 @@ def fltInc (inp : List Char) : Bool :=
          | [], _ :: _ => false
          | _ :: _, x :: r3 => expInc (x :: r3))
       | _ => false
+
+/-- Does the streaming `recognize_float` return `Incomplete` on this input? -/
+def fltInc (inp : List Char) : Bool := fltIncBody (stripPlusMinus inp).2
 
 /-- `map(number::double, NumericValue::Float)`. -/
 def lexFloatM (st : Bool) (inp : List Char) : Lx Num :=
@@ -273,17 +271,19 @@ def lexPrimM (st : Bool) (inp : List Char) : Lx Event :=
         | .inc => .inc
         | .err => .err
 
-/-- `attr`: `@` + `alt((string_literal, identifier))` + `opt(char('('))`, all streaming: name, has a body, rest. -/
+/-- `attr_name = alt((string_literal, identifier))`, streaming. -/
+def lexName (r : List Char) : Lx (List Char) :=
+  match lexStr r with
+  | .err => lexIdentM true r
+  | x => x
+
+/-- `attr`: `@` + `attr_name` + `opt(char('('))`, all streaming: name, has a body, rest. -/
 def lexAttr (inp : List Char) : Lx (List Char × Bool) :=
   match inp with
   | [] => .inc
   | c :: r =>
     if c = '@' then
-      let name : Lx (List Char) :=
-        match lexStr r with
-        | .err => lexIdentM true r
-        | x => x
-      match name with
+      match lexName r with
       | .ok nm r' =>
         (match r' with
          | [] => .inc
@@ -577,9 +577,10 @@ def runFrom : Nat → List PS → List Char → List Emit × Term
     | .err => ([], .err)
     | .panic => ([], .panic)
 
-/-- Every successful step consumes a character or pops a frame, so `3 * length + 8` steps are plenty; running out
-of fuel is a distinct outcome (`fuel`), never confused with a verdict. -/
-def run (inp : List Char) : List Emit × Term := runFrom (3 * inp.length + 8) [.init] inp
+/-- Every successful step consumes a character or pops a frame, so `12 * length + 8` steps are plenty (the proofs about
+printer output use at most `4 * size ≤ 8 * length + 4`); running out of fuel is a distinct outcome (`fuel`), never
+confused with a verdict. -/
+def run (inp : List Char) : List Emit × Term := runFrom (12 * inp.length + 8) [.init] inp
 
 /-- The items `ParseIterator` yields: the events, then `Some(Err(_))` if the stream ended in an error. -/
 def eventsOf (r : List Emit × Term) : List Event × Term := (r.1.map (·.ev), r.2)
@@ -1138,7 +1139,7 @@ def implicitLook : Nat → Nat → List Event → Bool
 as the source says (`implicitByStructure`). -/
 def isImplicitRecord (inp : List Char) : Bool :=
   if implicitByStructure then
-    implicitLook 0 0 ((runFrom (3 * inp.length + 8) [.body .ab .startOrNl, .init] inp).1.map (·.ev))
+    implicitLook 0 0 ((runFrom (12 * inp.length + 8) [.body .ab .startOrNl, .init] inp).1.map (·.ev))
   else implicitScan (inp.length + 1) none inp
 
 /-- The `while let Some(event_or_end) = events.take_event()` body of `HashParser::hash`. -/
